@@ -49,6 +49,15 @@ pub fn plane_lattice_tier(margin: bool, dense: bool) -> Vec<(P2, &'static str)> 
             }
         }
     }
+    // exact axis points with either sign of zero (a sign-bit test instead of a comparison, an atan2 branch)
+    for r in [1e-9, 1e-6, 1e-3, 0.1, 0.37, 0.6] {
+        for (x, y) in [(r, 0.0), (r, -0.0), (-r, 0.0), (-r, -0.0), (0.0, r), (-0.0, r), (0.0, -r), (-0.0, -r)] {
+            out.push(([x, y], "seam"));
+        }
+    }
+    for (x, y) in [(0.0, 0.0), (-0.0, 0.0), (0.0, -0.0), (-0.0, -0.0)] {
+        out.push(([x, y], "near-centre"));
+    }
     out
 }
 
@@ -155,6 +164,16 @@ pub fn sphere_vectors(tier: &str) -> Vec<(V3, &'static str)> {
     }
     for (lon, lat, tag) in en::caps_lonlat() {
         pts.push((rg::ll_to_vec(lon, lat), tag));
+    }
+    // points of the global frame's coordinate planes with either sign of zero in the vanishing component
+    for phi in [1e-9, 1e-3, 0.3, 0.9, 1.5, rg::PI / 2.0, 2.2, 3.0, rg::PI - 1e-6] {
+        let (s, c) = (f64::sin(phi), f64::cos(phi));
+        for v in [[s, 0.0, c], [s, -0.0, c], [-s, 0.0, c], [-s, -0.0, c], [0.0, s, c], [-0.0, s, c], [0.0, -s, c], [-0.0, -s, c]] {
+            pts.push((v, "frame-plane"));
+        }
+    }
+    for v in [[0.0, 0.0, 1.0], [-0.0, 0.0, 1.0], [0.0, -0.0, 1.0], [-0.0, -0.0, 1.0], [0.0, 0.0, -1.0], [-0.0, -0.0, -1.0], [1.0, 0.0, 0.0], [1.0, -0.0, -0.0], [1.0, 0.0, -0.0]] {
+        pts.push((v, "frame-plane"));
     }
     // rings around both poles at small colatitudes (shortcut thresholds of the spherical conversions)
     for rho in [1e-15, 1e-12, 1e-10, 1e-9, 1.5e-8, 1e-7, 1e-6, 1e-5, 1e-4, 1e-3, 1e-2] {
